@@ -1,5 +1,5 @@
 (* Proofs about model/Bits.v (C19). *)
-From Coq Require Import List NArith ZArith Bool Lia.
+From Coq Require Import List NArith ZArith Bool Arith Lia ZifyBool ZifyNat ZifyN Sorted.
 From AV Require Import model.Proto model.Bits.
 Import ListNotations.
 Open Scope Z_scope.
@@ -51,4 +51,592 @@ Proof.
   - rewrite Z.mod_pow2_bits_high by lia.
     replace (i + Z.of_N l <? Z.of_N h) with false by (symmetry; apply Z.ltb_ge; lia).
     rewrite andb_false_r. reflexivity.
+Qed.
+
+(* ------------------------------------------------------------------------------------ *)
+(* BitLen                                                                                 *)
+(* ------------------------------------------------------------------------------------ *)
+
+Lemma bitlen_0_iff x : bitlen x = 0%N <-> x = 0.
+Proof.
+  unfold bitlen. destruct x as [|p|p]; cbn [Z.abs_N N.size]; split; intros H; try reflexivity; discriminate.
+Qed.
+
+Lemma bitlen_opp x : bitlen (- x) = bitlen x.
+Proof. unfold bitlen. now rewrite Zabs2N.inj_opp. Qed.
+
+Lemma N_size_bounds n : n <> 0%N -> (2 ^ (N.size n - 1) <= n < 2 ^ N.size n)%N.
+Proof.
+  intros Hn. rewrite (N.size_log2 n Hn). replace (N.succ (N.log2 n) - 1)%N with (N.log2 n) by lia.
+  apply N.log2_spec. lia.
+Qed.
+
+Lemma bitlen_bounds x : 0 < x -> 2 ^ (Z.of_N (bitlen x) - 1) <= x < 2 ^ Z.of_N (bitlen x).
+Proof.
+  intros Hx. unfold bitlen. set (n := Z.abs_N x).
+  assert (Hn : Z.of_N n = x) by (unfold n; rewrite N2Z.inj_abs_N; lia).
+  assert (Hn0 : n <> 0%N) by lia.
+  pose proof (N_size_bounds n Hn0) as [H1 H2].
+  assert (Hs : (1 <= N.size n)%N) by (rewrite (N.size_log2 n Hn0); lia).
+  apply N2Z.inj_le in H1. apply N2Z.inj_lt in H2. rewrite N2Z.inj_pow in H1, H2.
+  rewrite N2Z.inj_sub in H1 by exact Hs. change (Z.of_N 2) with 2 in *. change (Z.of_N 1) with 1 in *.
+  rewrite Hn in *. split; assumption.
+Qed.
+
+Lemma bitlen_upper x : 0 <= x -> x < 2 ^ Z.of_N (bitlen x).
+Proof.
+  intros Hx. destruct (Z.eq_dec x 0) as [->|Hne]; [reflexivity|]. apply bitlen_bounds. lia.
+Qed.
+
+Lemma bitlen_pow2 e : bitlen (2 ^ Z.of_N e) = (e + 1)%N.
+Proof.
+  unfold bitlen. change 2 with (Z.of_N 2). rewrite <- N2Z.inj_pow, Zabs2N.id.
+  rewrite N.size_log2 by (apply N.pow_nonzero; lia). rewrite N.log2_pow2 by lia. lia.
+Qed.
+
+Lemma testbit_above_bitlen x i : 0 <= x -> (bitlen x <= i)%N -> Z.testbit x (Z.of_N i) = false.
+Proof.
+  intros Hx Hi. rewrite <- (Z.mod_small x (2 ^ Z.of_N (bitlen x))) by (split; [exact Hx|apply bitlen_upper; exact Hx]).
+  apply Z.mod_pow2_bits_high. lia.
+Qed.
+
+(* ------------------------------------------------------------------------------------ *)
+(* IsPow2                                                                                 *)
+(* ------------------------------------------------------------------------------------ *)
+
+Lemma is_pow2_iff x : is_pow2 x = true <-> exists e : N, x = 2 ^ Z.of_N e.
+Proof.
+  unfold is_pow2. cbv zeta. split.
+  - destruct (bitlen x =? 0)%N; [discriminate|]. intros H. apply Z.eqb_eq in H.
+    exists (bitlen x - 1)%N. rewrite <- pow2_eq. exact H.
+  - intros [e ->]. rewrite bitlen_pow2. replace (e + 1 =? 0)%N with false by (symmetry; apply N.eqb_neq; lia).
+    apply Z.eqb_eq. rewrite pow2_eq. f_equal. lia.
+Qed.
+
+Lemma is_pow2_false_iff x : is_pow2 x = false <-> forall e : N, x <> 2 ^ Z.of_N e.
+Proof.
+  split.
+  - intros H e He. assert (is_pow2 x = true) by (apply is_pow2_iff; exists e; exact He). congruence.
+  - intros H. destruct (is_pow2 x) eqn:E; [|reflexivity]. apply is_pow2_iff in E as [e He]. now apply H in He.
+Qed.
+
+(* ------------------------------------------------------------------------------------ *)
+(* Pow2UpTo                                                                               *)
+(* ------------------------------------------------------------------------------------ *)
+
+Lemma pow2_upto_loop_spec x : forall fuel i,
+  x < 2 ^ (Z.of_nat (i + fuel) - 1) ->
+  exists k : nat,
+    pow2_upto_loop fuel (2 ^ Z.of_nat i) x = map (fun e => 2 ^ Z.of_nat e) (seq i k) /\
+    forall e, (i <= e)%nat -> (2 ^ Z.of_nat e <= x <-> (e < i + k)%nat).
+Proof.
+  induction fuel as [|f IH]; intros i Hx.
+  - exists 0%nat. split; [reflexivity|]. intros e He. split; [|lia]. intros H.
+    assert (2 ^ (Z.of_nat (i + 0) - 1) <= 2 ^ Z.of_nat e) by (apply Z.pow_le_mono_r; lia). lia.
+  - cbn [pow2_upto_loop]. destruct (Z.leb_spec (2 ^ Z.of_nat i) x) as [Hle|Hgt].
+    + assert (E : Z.shiftl (2 ^ Z.of_nat i) 1 = 2 ^ Z.of_nat (S i)).
+      { rewrite Z.shiftl_mul_pow2 by lia. rewrite Nat2Z.inj_succ, Z.pow_succ_r by lia. lia. }
+      rewrite E. destruct (IH (S i)) as [k [H1 H2]].
+      { replace (S i + f)%nat with (i + S f)%nat by lia. exact Hx. }
+      exists (S k). split; [cbn [seq map]; f_equal; exact H1|].
+      intros e He. destruct (Nat.eq_dec e i) as [->|Hne]; [split; [lia|intros _; exact Hle]|].
+      rewrite (H2 e ltac:(lia)). lia.
+    + exists 0%nat. split; [reflexivity|]. intros e He. split; [|lia]. intros H.
+      assert (2 ^ Z.of_nat i <= 2 ^ Z.of_nat e) by (apply Z.pow_le_mono_r; lia). lia.
+Qed.
+
+(* exactly the powers of two that are <= x, in ascending order *)
+Lemma pow2_upto_spec x : exists k : nat,
+  pow2_upto x = map (fun e => 2 ^ Z.of_nat e) (seq 0 k) /\
+  forall e : nat, 2 ^ Z.of_nat e <= x <-> (e < k)%nat.
+Proof.
+  unfold pow2_upto. change 1 with (2 ^ Z.of_nat 0).
+  destruct (pow2_upto_loop_spec x (S (N.to_nat (bitlen x))) 0) as [k [H1 H2]].
+  - replace (Z.of_nat (0 + S (N.to_nat (bitlen x))) - 1) with (Z.of_N (bitlen x)) by lia.
+    destruct (Z.le_gt_cases 0 x) as [Hx|Hx]; [apply bitlen_upper; exact Hx|].
+    pose proof (Z.pow_nonneg 2 (Z.of_N (bitlen x))). lia.
+  - exists k. split; [exact H1|]. intros e. apply (H2 e). lia.
+Qed.
+
+Lemma pow2_upto_In x p : In p (pow2_upto x) <-> (exists e : N, p = 2 ^ Z.of_N e) /\ p <= x.
+Proof.
+  destruct (pow2_upto_spec x) as [k [H1 H2]]. rewrite H1, in_map_iff. split.
+  - intros [e [<- He]]. apply in_seq in He. split; [exists (N.of_nat e); f_equal; lia|apply H2; lia].
+  - intros [[e ->] Hp]. exists (N.to_nat e). split; [f_equal; lia|]. apply in_seq.
+    assert (N.to_nat e < k)%nat; [|lia]. apply H2. replace (Z.of_nat (N.to_nat e)) with (Z.of_N e) by lia. exact Hp.
+Qed.
+
+Lemma pow2_upto_sorted x : StronglySorted Z.lt (pow2_upto x).
+Proof.
+  destruct (pow2_upto_spec x) as [k [-> _]]. generalize 0%nat as i.
+  induction k as [|k IH]; intros i; cbn [seq map]; constructor; [apply IH|].
+  apply Forall_forall. intros p Hp. apply in_map_iff in Hp as [e [<- He]]. apply in_seq in He.
+  apply Z.pow_lt_mono_r; lia.
+Qed.
+
+(* ------------------------------------------------------------------------------------ *)
+(* BitsSet                                                                                *)
+(* ------------------------------------------------------------------------------------ *)
+
+Definition pow2_sum (es : list N) : Z := fold_right (fun e a => 2 ^ Z.of_N e + a) 0 es.
+
+Lemma pow2_sum_app a b : pow2_sum (a ++ b) = pow2_sum a + pow2_sum b.
+Proof. induction a as [|e a IH]; cbn [app pow2_sum fold_right]; [reflexivity|]. fold (pow2_sum (a ++ b)). fold (pow2_sum a). lia. Qed.
+
+Lemma bits_below x : 0 <= x -> forall m : nat,
+  pow2_sum (filter (fun i => Z.testbit x (Z.of_N i)) (map N.of_nat (seq 0 m))) = x mod 2 ^ Z.of_nat m.
+Proof.
+  intros Hx. induction m as [|m IH].
+  - cbn [seq map filter pow2_sum fold_right]. change (2 ^ Z.of_nat 0) with 1. now rewrite Z.mod_1_r.
+  - rewrite seq_S, map_app, filter_app, pow2_sum_app, IH. cbn [seq map filter plus].
+    rewrite Nat2Z.inj_succ, Z.pow_succ_r by lia. rewrite (Z.mul_comm 2).
+    rewrite Z.rem_mul_r by (try apply Z.pow_nonzero; lia).
+    replace (Z.of_N (N.of_nat m)) with (Z.of_nat m) by lia.
+    rewrite <- Z.testbit_spec' by lia.
+    destruct (Z.testbit x (Z.of_nat m)); cbn [pow2_sum fold_right Z.b2z];
+      replace (Z.of_N (N.of_nat m)) with (Z.of_nat m) by lia; lia.
+Qed.
+
+Lemma bits_set_In x i : In i (bits_set x) <-> (i < bitlen x)%N /\ Z.testbit x (Z.of_N i) = true.
+Proof.
+  unfold bits_set. rewrite filter_In, in_map_iff. split.
+  - intros [[k [<- Hk]] Hb]. apply in_seq in Hk. split; [lia|exact Hb].
+  - intros [Hi Hb]. split; [|exact Hb]. exists (N.to_nat i). split; [lia|apply in_seq; lia].
+Qed.
+
+Lemma bits_set_In_nonneg x i : 0 <= x -> (In i (bits_set x) <-> Z.testbit x (Z.of_N i) = true).
+Proof.
+  intros Hx. rewrite bits_set_In. split; [tauto|]. intros Hb. split; [|exact Hb].
+  destruct (N.lt_ge_cases i (bitlen x)) as [H|H]; [exact H|].
+  rewrite (testbit_above_bitlen x i Hx H) in Hb. discriminate.
+Qed.
+
+Lemma StronglySorted_filter {A} (R : A -> A -> Prop) (f : A -> bool) l :
+  StronglySorted R l -> StronglySorted R (filter f l).
+Proof.
+  induction 1 as [|a l Hs IH Ha]; cbn [filter]; [constructor|].
+  destruct (f a); [|exact IH]. constructor; [exact IH|].
+  apply Forall_forall. intros y Hy. apply filter_In in Hy as [Hy _].
+  rewrite Forall_forall in Ha. now apply Ha.
+Qed.
+
+Lemma seq_N_sorted n : forall a, StronglySorted N.lt (map N.of_nat (seq a n)).
+Proof.
+  induction n as [|n IH]; intros a; cbn [seq map]; constructor; [apply IH|].
+  apply Forall_forall. intros y Hy. apply in_map_iff in Hy as [k [<- Hk]]. apply in_seq in Hk. lia.
+Qed.
+
+Lemma bits_set_sorted x : StronglySorted N.lt (bits_set x).
+Proof. unfold bits_set. apply StronglySorted_filter, seq_N_sorted. Qed.
+
+Lemma bits_set_sum x : 0 <= x -> pow2_sum (bits_set x) = x.
+Proof.
+  intros Hx. unfold bits_set. rewrite bits_below by exact Hx.
+  replace (Z.of_nat (N.to_nat (bitlen x))) with (Z.of_N (bitlen x)) by lia.
+  apply Z.mod_small. split; [exact Hx|apply bitlen_upper; exact Hx].
+Qed.
+
+Lemma bits_set_spec x : 0 <= x ->
+  StronglySorted N.lt (bits_set x) /\
+  (forall i, In i (bits_set x) <-> Z.testbit x (Z.of_N i) = true) /\
+  pow2_sum (bits_set x) = x.
+Proof.
+  intros Hx. split; [apply bits_set_sorted|]. split; [intros i; apply bits_set_In_nonneg; exact Hx|apply bits_set_sum; exact Hx].
+Qed.
+
+(* ------------------------------------------------------------------------------------ *)
+(* MinMax                                                                                 *)
+(* ------------------------------------------------------------------------------------ *)
+
+Lemma min_max_spec x y : min_max x y = (Z.min x y, Z.max x y).
+Proof. unfold min_max. destruct (Z.ltb_spec x y); f_equal; lia. Qed.
+
+(* ------------------------------------------------------------------------------------ *)
+(* Uint64s                                                                                *)
+(* ------------------------------------------------------------------------------------ *)
+
+Definition limbs_value (ws : list Z) : Z := fold_right (fun w a => w + 2 ^ 64 * a) 0 ws.
+
+Lemma ones_64 : ones 64 = Z.ones 64.
+Proof. reflexivity. Qed.
+
+Lemma uint64s_loop_spec : forall fuel z, 0 <= z < 2 ^ Z.of_nat fuel ->
+  exists ws, uint64s_loop fuel z = Ok ws /\ limbs_value ws = z /\
+             Forall (fun w => 0 <= w < 2 ^ 64) ws /\ (ws <> [] -> last ws 0 <> 0).
+Proof.
+  induction fuel as [|f IH]; intros z Hz.
+  - change (2 ^ Z.of_nat 0) with 1 in Hz. assert (z = 0) as -> by lia.
+    exists []. repeat split; [constructor|congruence].
+  - cbn [uint64s_loop]. destruct (Z.eqb_spec z 0) as [->|Hne].
+    + exists []. repeat split; [constructor|congruence].
+    + rewrite Z.shiftr_div_pow2 by lia. rewrite ones_64, Z.land_ones by lia.
+      rewrite Nat2Z.inj_succ, Z.pow_succ_r in Hz by lia.
+      assert (Hq : 0 <= z / 2 ^ 64 < 2 ^ Z.of_nat f).
+      { split; [apply Z.div_pos; lia|]. apply Z.div_lt_upper_bound; [lia|].
+        assert (0 < 2 ^ Z.of_nat f) by (apply Z.pow_pos_nonneg; lia). nia. }
+      destruct (IH _ Hq) as [ws [H1 [H2 [H3 H4]]]]. rewrite H1. cbn [obind].
+      exists (z mod 2 ^ 64 :: ws). split; [reflexivity|]. split; [|split].
+      * cbn [limbs_value fold_right]. fold (limbs_value ws). rewrite H2.
+        rewrite (Z.div_mod z (2 ^ 64)) at 3 by lia. lia.
+      * constructor; [apply Z.mod_pos_bound; lia|exact H3].
+      * intros _. destruct ws as [|w ws]; [|exact (H4 ltac:(discriminate))].
+        cbn [last]. cbn [limbs_value fold_right] in H2.
+        rewrite (Z.div_mod z (2 ^ 64)) in Hne by lia. lia.
+Qed.
+
+Lemma uint64s_spec x : 0 <= x ->
+  exists ws, uint64s x = Ok ws /\ limbs_value ws = x /\
+             Forall (fun w => 0 <= w < 2 ^ 64) ws /\ (ws <> [] -> last ws 0 <> 0).
+Proof.
+  intros Hx. unfold uint64s. apply uint64s_loop_spec. split; [exact Hx|].
+  pose proof (bitlen_upper x Hx) as H.
+  replace (Z.of_nat (S (N.to_nat (bitlen x)))) with (Z.succ (Z.of_N (bitlen x))) by lia.
+  rewrite Z.pow_succ_r by lia. lia.
+Qed.
+
+(* Go's loop never terminates for negative x (arithmetic shift keeps the sign): the model
+   reports OutOfFuel, whatever the fuel *)
+Lemma uint64s_loop_neg : forall fuel z, z < 0 -> uint64s_loop fuel z = OutOfFuel.
+Proof.
+  induction fuel as [|f IH]; intros z Hz; cbn [uint64s_loop];
+    (destruct (Z.eqb_spec z 0) as [->|Hne]; [lia|]); [reflexivity|].
+  rewrite IH; [reflexivity|]. apply Z.shiftr_neg. exact Hz.
+Qed.
+
+Lemma uint64s_neg x : x < 0 -> uint64s x = OutOfFuel.
+Proof. intros H. apply uint64s_loop_neg. exact H. Qed.
+
+(* ------------------------------------------------------------------------------------ *)
+(* BytesLittleEndian                                                                      *)
+(* ------------------------------------------------------------------------------------ *)
+
+Definition bytes_value (bs : list N) : N := fold_right (fun b a => b + 256 * a)%N 0%N bs.
+
+Lemma bytes_le_loop_spec : forall fuel z, (z < 2 ^ N.of_nat fuel)%N ->
+  let bs := bytes_le_loop fuel z in
+  bytes_value bs = z /\ Forall (fun b => b < 256)%N bs /\ (bs <> [] -> last bs 0%N <> 0%N).
+Proof.
+  induction fuel as [|f IH]; intros z Hz; cbv zeta.
+  - change (2 ^ N.of_nat 0)%N with 1%N in Hz. assert (z = 0%N) as -> by lia.
+    cbn [bytes_le_loop]. repeat split; [constructor|congruence].
+  - cbn [bytes_le_loop]. destruct (N.eqb_spec z 0) as [->|Hne].
+    + repeat split; [constructor|congruence].
+    + rewrite Nat2N.inj_succ, N.pow_succ_r' in Hz.
+      assert (Hq : (z / 256 < 2 ^ N.of_nat f)%N).
+      { apply N.div_lt_upper_bound; [lia|]. assert (0 < 2 ^ N.of_nat f)%N by (apply N.neq_0_lt_0, N.pow_nonzero; lia). nia. }
+      destruct (IH _ Hq) as [H2 [H3 H4]]. set (bs := bytes_le_loop f (z / 256)%N) in *.
+      split; [|split].
+      * cbn [bytes_value fold_right]. fold (bytes_value bs). rewrite H2.
+        rewrite (N.div_mod z 256) at 3 by lia. lia.
+      * constructor; [apply N.mod_upper_bound; lia|exact H3].
+      * intros _. destruct bs as [|w ws] eqn:Ebs; [|exact (H4 ltac:(discriminate))].
+        cbn [last]. cbn [bytes_value fold_right] in H2.
+        rewrite (N.div_mod z 256) in Hne by lia. lia.
+Qed.
+
+(* little-endian base-256 digits of |x|, no trailing zero byte *)
+Lemma bytes_le_spec x :
+  bytes_value (bytes_le x) = Z.abs_N x /\ Forall (fun b => b < 256)%N (bytes_le x) /\
+  (bytes_le x <> [] -> last (bytes_le x) 0%N <> 0%N).
+Proof.
+  unfold bytes_le. apply bytes_le_loop_spec. unfold bitlen.
+  pose proof (N.size_gt (Z.abs_N x)) as H.
+  replace (N.of_nat (S (N.to_nat (N.size (Z.abs_N x))))) with (N.succ (N.size (Z.abs_N x))) by lia.
+  rewrite N.pow_succ_r'. lia.
+Qed.
+
+Lemma bytes_le_zero : bytes_le 0 = [].
+Proof. reflexivity. Qed.
+
+(* ------------------------------------------------------------------------------------ *)
+(* Hex / Binary: underscore-separated literals                                            *)
+(* ------------------------------------------------------------------------------------ *)
+
+(* t is s with underscores (byte 95) inserted at arbitrary places *)
+Inductive us_inserted : list N -> list N -> Prop :=
+| usi_nil : us_inserted [] []
+| usi_us s t : us_inserted s t -> us_inserted s (95%N :: t)
+| usi_keep c s t : us_inserted s t -> us_inserted (c :: s) (c :: t).
+
+Lemma strip_us_inserted s t : Forall (fun c => c <> 95%N) s -> us_inserted s t -> strip_underscore t = s.
+Proof.
+  intros Hs H. induction H as [|s t H IH|c s t H IH].
+  - reflexivity.
+  - unfold strip_underscore. cbn [filter]. change (95 =? 95)%N with true. cbn [negb]. apply IH. exact Hs.
+  - apply Forall_cons_iff in Hs as [Hc Hs]. unfold strip_underscore. cbn [filter].
+    replace (c =? 95)%N with false by (symmetry; apply N.eqb_neq; exact Hc). cbn [negb].
+    f_equal. apply IH. exact Hs.
+Qed.
+
+Lemma us_inserted_strip t : us_inserted (strip_underscore t) t.
+Proof.
+  induction t as [|c t IH]; [constructor|]. unfold strip_underscore. cbn [filter].
+  destruct (N.eqb_spec c 95) as [->|Hne]; cbn [negb]; [apply usi_us|apply usi_keep]; exact IH.
+Qed.
+
+Lemma us_inserted_refl s : us_inserted s s.
+Proof. induction s; constructor; assumption. Qed.
+
+Lemma strip_no_underscore s : ~ In 95%N (strip_underscore s).
+Proof. unfold strip_underscore. intros H. apply filter_In in H as [_ H]. discriminate. Qed.
+
+(* the digit value of a character in the given base (letters in either case) *)
+Definition digit_of (base : N) (c d : N) : Prop := digitval c = Some d /\ (d < base)%N.
+
+(* value of a digit string, most significant digit first *)
+Definition digits_value (base : N) (ds : list N) : N := fold_left (fun a d => a * base + d)%N ds 0%N.
+
+Lemma digitval_char c d : digitval c = Some d <->
+  (48 <= c <= 57 /\ d = c - 48)%N \/ (97 <= c <= 122 /\ d = c - 87)%N \/ (65 <= c <= 90 /\ d = c - 55)%N.
+Proof.
+  unfold digitval.
+  destruct ((48 <=? c) && (c <=? 57))%N eqn:E1; [|destruct ((97 <=? c) && (c <=? 122))%N eqn:E2;
+    [|destruct ((65 <=? c) && (c <=? 90))%N eqn:E3]];
+  (split; [intros H; try discriminate; injection H as <-; lia|intros H; try (exfalso; lia); f_equal; lia]).
+Qed.
+
+Lemma hex_digit_char c : (exists d, digit_of 16 c d) <-> (48 <= c <= 57 \/ 97 <= c <= 102 \/ 65 <= c <= 70)%N.
+Proof.
+  split.
+  - intros [d [H Hd]]. apply digitval_char in H. lia.
+  - intros H. assert (E : exists d, digitval c = Some d /\ (d < 16)%N); [|exact E].
+    destruct H as [H|[H|H]].
+    + exists (c - 48)%N. split; [apply digitval_char|]; lia.
+    + exists (c - 87)%N. split; [apply digitval_char|]; lia.
+    + exists (c - 55)%N. split; [apply digitval_char|]; lia.
+Qed.
+
+Lemma bin_digit_char c : (exists d, digit_of 2 c d) <-> (c = 48 \/ c = 49)%N.
+Proof.
+  split.
+  - intros [d [H Hd]]. apply digitval_char in H. lia.
+  - intros H. assert (E : exists d, digitval c = Some d /\ (d < 2)%N); [|exact E].
+    exists (c - 48)%N. split; [apply digitval_char|]; lia.
+Qed.
+
+Lemma digits_acc_spec base : forall s a v,
+  digits_acc base a s = Some v <->
+  exists ds, Forall2 (digit_of base) s ds /\ v = fold_left (fun a d => a * base + d)%N ds a.
+Proof.
+  induction s as [|c s IH]; intros a v; cbn [digits_acc].
+  - split.
+    + intros H. injection H as <-. exists []. split; [constructor|reflexivity].
+    + intros [ds [H ->]]. inversion H. reflexivity.
+  - split.
+    + destruct (digitval c) as [d|] eqn:Ed; [|discriminate].
+      destruct (d <? base)%N eqn:Eb; [|discriminate]. intros H. apply IH in H as [ds [H1 H2]].
+      exists (d :: ds). split; [|exact H2]. constructor; [|exact H1]. split; [exact Ed|apply N.ltb_lt; exact Eb].
+    + intros [ds [H ->]]. inversion H as [|c' d s' ds' [Ed Eb] Hr]; subst.
+      rewrite Ed. replace (d <? base)%N with true by (symmetry; apply N.ltb_lt; exact Eb).
+      apply IH. exists ds'. split; [exact Hr|reflexivity].
+Qed.
+
+Lemma digits_acc_app base s t : forall a,
+  digits_acc base a (s ++ t) = match digits_acc base a s with Some a' => digits_acc base a' t | None => None end.
+Proof.
+  induction s as [|c s IH]; intros a; cbn [app digits_acc]; [reflexivity|].
+  destruct (digitval c) as [d|]; [|reflexivity]. destruct (d <? base)%N; [apply IH|reflexivity].
+Qed.
+
+(* sign handling of SetString as equations on the first character *)
+Lemma set_string_eq base s : set_string base s =
+  match s with
+  | [] => None
+  | c :: r =>
+      if (c =? 45)%N then match r with [] => None | _ => option_map (fun n => - Z.of_N n) (digits_acc base 0 r) end
+      else if (c =? 43)%N then match r with [] => None | _ => option_map Z.of_N (digits_acc base 0 r) end
+      else option_map Z.of_N (digits_acc base 0 s)
+  end.
+Proof.
+  destruct s as [|c r]; [reflexivity|].
+  destruct (N.eqb_spec c 45) as [->|H45]; [reflexivity|].
+  destruct (N.eqb_spec c 43) as [->|H43]; [reflexivity|].
+  unfold set_string. destruct c as [|p]; [reflexivity|].
+  do 7 (try (destruct p as [p|p|]; try reflexivity; try congruence)).
+Qed.
+
+Inductive sign_prefix : list N -> bool -> Prop :=
+| sp_none : sign_prefix [] false
+| sp_plus : sign_prefix [43%N] false
+| sp_minus : sign_prefix [45%N] true.
+
+(* s is: optional sign, then at least one digit of the base and nothing else; v its value *)
+Definition wf_literal (base : N) (s : list N) (v : Z) : Prop :=
+  exists sg neg body ds,
+    s = sg ++ body /\ sign_prefix sg neg /\ body <> [] /\ Forall2 (digit_of base) body ds /\
+    v = if neg then - Z.of_N (digits_value base ds) else Z.of_N (digits_value base ds).
+
+Lemma digitval_not_sign c d : digitval c = Some d -> c <> 45%N /\ c <> 43%N /\ c <> 95%N.
+Proof. intros H. apply digitval_char in H. lia. Qed.
+
+Lemma set_string_spec base s v : set_string base s = Some v <-> wf_literal base s v.
+Proof.
+  rewrite set_string_eq. split.
+  - destruct s as [|c r]; [discriminate|].
+    destruct (N.eqb_spec c 45) as [->|H45]; [|destruct (N.eqb_spec c 43) as [->|H43]].
+    + destruct r as [|c' r']; [discriminate|]. destruct (digits_acc base 0 (c' :: r')) as [n|] eqn:E; [|discriminate].
+      intros H. injection H as <-. apply digits_acc_spec in E as [ds [H1 H2]].
+      exists [45%N], true, (c' :: r'), ds. repeat split; try assumption; [constructor|discriminate|].
+      unfold digits_value. now rewrite H2.
+    + destruct r as [|c' r']; [discriminate|]. destruct (digits_acc base 0 (c' :: r')) as [n|] eqn:E; [|discriminate].
+      intros H. injection H as <-. apply digits_acc_spec in E as [ds [H1 H2]].
+      exists [43%N], false, (c' :: r'), ds. repeat split; try assumption; [constructor|discriminate|].
+      unfold digits_value. now rewrite H2.
+    + destruct (digits_acc base 0 (c :: r)) as [n|] eqn:E; [|discriminate].
+      intros H. injection H as <-. apply digits_acc_spec in E as [ds [H1 H2]].
+      exists [], false, (c :: r), ds. repeat split; try assumption; [constructor|discriminate|].
+      unfold digits_value. now rewrite H2.
+  - intros [sg [neg [body [ds [-> [Hsg [Hne [Hd ->]]]]]]]].
+    assert (E : digits_acc base 0 body = Some (digits_value base ds))
+      by (apply digits_acc_spec; exists ds; split; [exact Hd|reflexivity]).
+    destruct body as [|c r]; [congruence|].
+    destruct Hsg; cbn [app].
+    + inversion Hd as [|c' d s' ds' [Ed _] Hr]; subst. destruct (digitval_not_sign c d Ed) as [H45 [H43 _]].
+      replace (c =? 45)%N with false by (symmetry; apply N.eqb_neq; exact H45).
+      replace (c =? 43)%N with false by (symmetry; apply N.eqb_neq; exact H43).
+      rewrite E. reflexivity.
+    + change (43 =? 45)%N with false. change (43 =? 43)%N with true. cbv iota. rewrite E. reflexivity.
+    + change (45 =? 45)%N with true. cbv iota. rewrite E. reflexivity.
+Qed.
+
+Lemma hex_spec s v : hex s = Some v <-> wf_literal 16 (strip_underscore s) v.
+Proof. apply set_string_spec. Qed.
+
+Lemma binary_spec s v : binary s = Some v <-> wf_literal 2 (strip_underscore s) v.
+Proof. apply set_string_spec. Qed.
+
+(* any character other than '_', a leading sign and the digits of the base makes the literal invalid *)
+Lemma set_string_accepts base s v : set_string base s = Some v ->
+  exists sg body, s = sg ++ body /\ (sg = [] \/ sg = [43%N] \/ sg = [45%N]) /\ body <> [] /\
+                  Forall (fun c => exists d, digit_of base c d) body.
+Proof.
+  intros H. apply set_string_spec in H as [sg [neg [body [ds [-> [Hsg [Hne [Hd _]]]]]]]].
+  exists sg, body. repeat split; try assumption.
+  - destruct Hsg; auto.
+  - clear Hne. induction Hd as [|c d s' ds' Hcd Hr IH]; constructor; [exists d; exact Hcd|exact IH].
+Qed.
+
+Lemma hex_rejects s c : In c s -> c <> 95%N -> c <> 43%N -> c <> 45%N ->
+  ~ (48 <= c <= 57 \/ 97 <= c <= 102 \/ 65 <= c <= 70)%N -> hex s = None.
+Proof.
+  intros Hin H95 H43 H45 Hnd. destruct (hex s) as [v|] eqn:E; [|reflexivity]. exfalso.
+  apply set_string_accepts in E as [sg [body [E [Hsg [_ Hb]]]]].
+  assert (Hc : In c (strip_underscore s)).
+  { unfold strip_underscore. apply filter_In. split; [exact Hin|]. apply negb_true_iff, N.eqb_neq. exact H95. }
+  rewrite E in Hc. apply in_app_or in Hc as [Hc|Hc].
+  - destruct Hsg as [-> | [-> | ->]]; cbn [In] in Hc; intuition congruence.
+  - rewrite Forall_forall in Hb. apply Hnd, hex_digit_char, Hb, Hc.
+Qed.
+
+Lemma binary_rejects s c : In c s -> c <> 95%N -> c <> 43%N -> c <> 45%N -> c <> 48%N -> c <> 49%N -> binary s = None.
+Proof.
+  intros Hin H95 H43 H45 H0 H1. destruct (binary s) as [v|] eqn:E; [|reflexivity]. exfalso.
+  apply set_string_accepts in E as [sg [body [E [Hsg [_ Hb]]]]].
+  assert (Hc : In c (strip_underscore s)).
+  { unfold strip_underscore. apply filter_In. split; [exact Hin|]. apply negb_true_iff, N.eqb_neq. exact H95. }
+  rewrite E in Hc. apply in_app_or in Hc as [Hc|Hc].
+  - destruct Hsg as [-> | [-> | ->]]; cbn [In] in Hc; intuition congruence.
+  - rewrite Forall_forall in Hb. apply Hb, bin_digit_char in Hc. lia.
+Qed.
+
+(* ---- round trip with the canonical rendering (Proto.print_base_fuel, as used on the wire) ---- *)
+
+Definition print_baseN (base n : N) : list N := print_base_fuel base (S (N.to_nat (N.size n))) n [].
+Definition print_baseZ (base : N) (z : Z) : list N :=
+  match z with
+  | Zneg p => 45%N :: print_baseN base (Npos p)
+  | _ => print_baseN base (Z.to_N z)
+  end.
+Definition print_binZ : Z -> list N := print_baseZ 2.
+
+Lemma print_hexZ_base z : print_hexZ z = print_baseZ 16 z.
+Proof. reflexivity. Qed.
+
+Lemma hexchar_digit base d : (base <= 16)%N -> (d < base)%N -> digit_of base (hexchar d) d.
+Proof.
+  intros Hb Hd. split; [|exact Hd]. apply digitval_char. unfold hexchar.
+  destruct (N.ltb_spec d 10); lia.
+Qed.
+
+Lemma print_base_fuel_app base : forall fuel n acc,
+  print_base_fuel base fuel n acc = print_base_fuel base fuel n [] ++ acc.
+Proof.
+  induction fuel as [|f IH]; intros n acc; cbn [print_base_fuel]; [reflexivity|]. cbv zeta.
+  destruct (n / base =? 0)%N; [reflexivity|].
+  rewrite (IH _ (_ :: acc)), (IH _ [_]). rewrite <- app_assoc. reflexivity.
+Qed.
+
+Lemma print_base_fuel_digits base : (2 <= base <= 16)%N -> forall fuel n, (n < 2 ^ N.of_nat fuel)%N ->
+  exists ds, Forall2 (digit_of base) (print_base_fuel base (S fuel) n []) ds /\ ds <> [] /\
+             forall a, fold_left (fun a d => a * base + d)%N ds a = (a * base ^ N.of_nat (length ds) + n)%N.
+Proof.
+  intros Hb. induction fuel as [|f IH]; intros n Hn.
+  - change (2 ^ N.of_nat 0)%N with 1%N in Hn. assert (n = 0%N) as -> by lia.
+    cbn [print_base_fuel]. cbv zeta. rewrite N.div_0_l by lia. change (0 =? 0)%N with true. cbv iota.
+    exists [0%N]. split; [|split; [discriminate|]].
+    + constructor; [|constructor]. rewrite N.mod_0_l by lia. apply hexchar_digit; lia.
+    + intros a. cbn [fold_left length]. change (N.of_nat 1) with 1%N. rewrite N.pow_1_r. lia.
+  - remember (S f) as sf. cbn [print_base_fuel]. cbv zeta. subst sf.
+    assert (Hm : (n mod base < base)%N) by (apply N.mod_upper_bound; lia).
+    destruct (N.eqb_spec (n / base) 0) as [Hq|Hq].
+    + exists [(n mod base)%N]. split; [|split; [discriminate|]].
+      * constructor; [|constructor]. apply hexchar_digit; lia.
+      * intros a. cbn [fold_left length]. change (N.of_nat 1) with 1%N. rewrite N.pow_1_r.
+        rewrite (N.div_mod n base) at 2 by lia. rewrite Hq. lia.
+    + rewrite print_base_fuel_app.
+      assert (Hq' : (n / base < 2 ^ N.of_nat f)%N).
+      { rewrite Nat2N.inj_succ, N.pow_succ_r' in Hn. apply N.div_lt_upper_bound; [lia|].
+        assert (0 < 2 ^ N.of_nat f)%N by (apply N.neq_0_lt_0, N.pow_nonzero; lia). nia. }
+      destruct (IH _ Hq') as [ds [H1 [H2 H3]]].
+      exists (ds ++ [(n mod base)%N]). split; [|split].
+      * apply Forall2_app; [exact H1|]. constructor; [|constructor]. apply hexchar_digit; lia.
+      * destruct ds; discriminate.
+      * intros a. rewrite fold_left_app. cbn [fold_left]. rewrite H3.
+        rewrite app_length. cbn [length]. replace (N.of_nat (length ds + 1)) with (N.succ (N.of_nat (length ds))) by lia.
+        rewrite N.pow_succ_r'. assert (E : n = (base * (n / base) + n mod base)%N) by (apply N.div_mod; lia).
+        set (q := (n / base)%N) in *. set (r := (n mod base)%N) in *. clearbody q r. rewrite E. ring.
+Qed.
+
+Lemma print_baseN_digits base n : (2 <= base <= 16)%N ->
+  exists ds, Forall2 (digit_of base) (print_baseN base n) ds /\ ds <> [] /\ digits_value base ds = n.
+Proof.
+  intros Hb. destruct (print_base_fuel_digits base Hb (N.to_nat (N.size n)) n) as [ds [H1 [H2 H3]]].
+  - rewrite N2Nat.id. apply N.size_gt.
+  - exists ds. split; [exact H1|]. split; [exact H2|]. unfold digits_value. rewrite H3. lia.
+Qed.
+
+Lemma Forall2_digit_no_us base s ds : Forall2 (digit_of base) s ds -> Forall (fun c => c <> 95%N) s.
+Proof.
+  induction 1 as [|c d s' ds' [Hc _] Hr IH]; constructor; [|exact IH]. apply (digitval_not_sign c d Hc).
+Qed.
+
+Lemma print_baseZ_literal base z : (2 <= base <= 16)%N ->
+  wf_literal base (print_baseZ base z) z /\ Forall (fun c => c <> 95%N) (print_baseZ base z).
+Proof.
+  intros Hb. unfold print_baseZ. destruct z as [|p|p].
+  - destruct (print_baseN_digits base (Z.to_N 0) Hb) as [ds [H1 [H2 H3]]]. split.
+    + exists [], false, (print_baseN base (Z.to_N 0)), ds. repeat split; [constructor| |exact H1|rewrite H3; reflexivity].
+      intros E. rewrite E in H1. inversion H1. congruence.
+    + eapply Forall2_digit_no_us; exact H1.
+  - destruct (print_baseN_digits base (Z.to_N (Zpos p)) Hb) as [ds [H1 [H2 H3]]]. split.
+    + exists [], false, (print_baseN base (Z.to_N (Zpos p))), ds. repeat split; [constructor| |exact H1|rewrite H3; reflexivity].
+      intros E. rewrite E in H1. inversion H1. congruence.
+    + eapply Forall2_digit_no_us; exact H1.
+  - destruct (print_baseN_digits base (Npos p) Hb) as [ds [H1 [H2 H3]]]. split.
+    + exists [45%N], true, (print_baseN base (Npos p)), ds. repeat split; [constructor| |exact H1|rewrite H3; reflexivity].
+      intros E. rewrite E in H1. inversion H1. congruence.
+    + constructor; [discriminate|]. eapply Forall2_digit_no_us; exact H1.
+Qed.
+
+(* parsing the canonical hex rendering of n, with underscores inserted anywhere, gives n *)
+Lemma hex_roundtrip n t : us_inserted (print_hexZ n) t -> hex t = Some n.
+Proof.
+  intros H. rewrite print_hexZ_base in H. destruct (print_baseZ_literal 16 n ltac:(lia)) as [H1 H2].
+  apply hex_spec. rewrite (strip_us_inserted _ _ H2 H). exact H1.
+Qed.
+
+Lemma binary_roundtrip n t : us_inserted (print_binZ n) t -> binary t = Some n.
+Proof.
+  intros H. unfold print_binZ in H. destruct (print_baseZ_literal 2 n ltac:(lia)) as [H1 H2].
+  apply binary_spec. rewrite (strip_us_inserted _ _ H2 H). exact H1.
 Qed.
